@@ -90,7 +90,7 @@ type ContractFile struct {
 
 var clauseKeywords = map[string]bool{"func": true, "props": true, "requires": true, "ensures": true, "decreases": true,
 	"loop": true, "pure": true, "trusted": true, "maypanic": true, "nosafety": true, "inline": true, "modifies": true,
-	"cover": true, "assumes": true, "spec": true, "axiom": true, "lemma": true, "opaque": true, "noframe": true, "readonly": true, "opaque_strings": true, "string_len_bound": true, "byte_len": true, "readonly_model": true, "readonly_receiver": true, "closed_alloc": true}
+	"cover": true, "assumes": true, "spec": true, "axiom": true, "lemma": true, "opaque": true, "noframe": true, "readonly": true, "opaque_strings": true, "string_len_bound": true, "byte_len": true, "readonly_model": true, "readonly_receiver": true, "closed_alloc": true, "per_return_posts": true}
 
 func ParseContractFile(path, pkg string) (*ContractFile, error) {
 	data, err := os.ReadFile(path)
@@ -178,7 +178,7 @@ func ParseContractFile(path, pkg string) (*ContractFile, error) {
 			} else {
 				ls.Invariants = append(ls.Invariants, cl)
 			}
-		case "pure", "trusted", "maypanic", "nosafety", "inline", "noframe", "readonly", "opaque_strings", "string_len_bound", "byte_len", "readonly_model", "readonly_receiver", "closed_alloc":
+		case "pure", "trusted", "maypanic", "nosafety", "inline", "noframe", "readonly", "opaque_strings", "string_len_bound", "byte_len", "readonly_model", "readonly_receiver", "closed_alloc", "per_return_posts":
 			if cur == nil {
 				return nil, fail(fmt.Errorf("%s outside func", kw))
 			}
